@@ -301,7 +301,9 @@ pub fn after_op(
                     Some(p) => {
                         let tip = g.sys.chain.len();
                         let in_index = g.sys.chain[tip.saturating_sub(101)..tip - 1].iter().any(|b| b.3.contains(&p));
-                        let asked = sent_ok(p) || in_mempool(p);
+                        // the carrier's memo outlives requests: a verdict obtained for this penalty since the last block
+                        // connection (e.g. by a submission that arrived with the dispute already in the cache) is reused
+                        let asked = sent_ok(p) || in_mempool(p) || g.mon.sent_since_block.contains(&p);
                         if !asked && !in_index && !cur.trackers.contains_key(k) {
                             g.rep.fail("C01", "breach_not_answered", &format!("{k:?}: dispute t{} in block {height}, penalty t{} not submitted", k.0 * 16, p * 16));
                         }
